@@ -262,7 +262,7 @@ def check_config(config: dict) -> None:
             inp_path1 = eng1.pop("input_path")
             for key2 in unique_engines:
                 eng2 = config[key2].copy()
-                inp_path2 = eng2.pop("input_path")
+                inp_path2 = eng2.pop("input_path", None)
                 if eng1 != eng2 and inp_path1 == inp_path2:
                     raise TOMLConfigError(
                         "Found differing engine settings with identic"
